@@ -272,6 +272,7 @@ _OPS0 = 'enqueue, process, processOne, processIf, processUntil, takeEvent, peekE
 _OPS3 = 'enqueue, takeEvent, peekEvent'
 _OPS4 = 'enqueue, process, processOne, processIf, clearEvents'
 _OPS5 = 'enqueue, process, processOne'
+_NOREP = '(engine verdict only, no native replay: the per-prototype callback lists inside the heterogeneous classes use std::mutex / std::atomic whatever the Threading policy says, and the native runtime can only schedule the instrumented policy) '
 _QTH = _QT.replace('EventQueue,', 'HeterEventQueue (two prototypes),')
 PROPS['C06'] = Prop(
     quick=[Run('q_threads_ops1_s2_p1', 'q_threads.cpp', {'MODE': 6, 'TT': 2, 'SS': 2, 'OPSET': 1}, preempt=1, covers=2, mt=True, bounds=_QT % (2, 2, _OPS1, '', 1, _SP_HOOKS)),
@@ -279,7 +280,7 @@ PROPS['C06'] = Prop(
            Run('q_threads_all_s1_auto_p1', 'q_threads.cpp', {'MODE': 6, 'TT': 2, 'SS': 1, 'OPSET': 0}, preempt=1, covers=2, mt=True, shared_points=True, native=(), bounds=_QT % (2, 1, _OPS0, '', 1, _SP_AUTO)),
            Run('q_threads_peek_s2_auto_p1', 'q_threads.cpp', {'MODE': 6, 'TT': 2, 'SS': 2, 'OPSET': 3}, preempt=1, covers=2, optional_covers=(0,), mt=True, shared_points=True, native=(), bounds=_QT % (2, 2, _OPS3, '', 1, _SP_AUTO)),
            Run('hq_threads_s1_auto_p1', 'q_threads.cpp', {'MODE': 6, 'TT': 2, 'SS': 1, 'OPSET': 4, 'HETER': None}, preempt=1, covers=2, optional_covers=(0, 1), mt=True, shared_points=True, native=(), bounds=_QTH % (2, 1, _OPS4, '', 1, _SP_AUTO))],
-    thorough=[Run('hq_threads_s2_p1', 'q_threads.cpp', {'MODE': 6, 'TT': 2, 'SS': 2, 'OPSET': 4, 'HETER': None}, preempt=1, covers=2, optional_covers=(0, 1), mt=True, budget_s=1700, bounds=_QTH % (2, 2, _OPS4, '', 1, _SP_HOOKS)),
+    thorough=[Run('hq_threads_s2_p1', 'q_threads.cpp', {'MODE': 6, 'TT': 2, 'SS': 2, 'OPSET': 4, 'HETER': None}, preempt=1, covers=2, optional_covers=(0, 1), mt=True, native=(), budget_s=1700, bounds=_NOREP + _QTH % (2, 2, _OPS4, '', 1, _SP_HOOKS)),
               Run('hq_threads_s2_auto_p1', 'q_threads.cpp', {'MODE': 6, 'TT': 2, 'SS': 2, 'OPSET': 5, 'HETER': None}, preempt=1, covers=2, optional_covers=(0, 1), mt=True, shared_points=True, native=(), budget_s=1700, bounds=_QTH % (2, 2, _OPS5, '', 1, _SP_AUTO)),
               Run('hq_threads_s1_auto_p1', 'q_threads.cpp', {'MODE': 6, 'TT': 2, 'SS': 1, 'OPSET': 4, 'HETER': None}, preempt=1, covers=2, optional_covers=(0, 1), mt=True, shared_points=True, native=(), bounds=_QTH % (2, 1, _OPS4, '', 1, _SP_AUTO)),
               Run('q_threads_all_s2_p1', 'q_threads.cpp', {'MODE': 6, 'TT': 2, 'SS': 2, 'OPSET': 0}, preempt=1, covers=2, mt=True, budget_s=1700, bounds=_QT % (2, 2, _OPS0, '', 1, _SP_HOOKS)),
@@ -292,8 +293,11 @@ PROPS['C06'] = Prop(
 PROPS['C11'] = Prop(
     quick=[Run('q_observer_t1_s2_p3', 'q_threads.cpp', {'MODE': 11, 'TT': 1, 'SS': 2, 'OPSET': 1}, preempt=3, covers=5, optional_covers=(0, 1, 2), mt=True, bounds=_QT % (1, 2, _OPS1, ' + one observer thread calling emptyQueue() or waitFor(timeout); in every run the listener itself also calls emptyQueue() (single-threaded variant)', 3, _SP_HOOKS)),
            Run('q_observer_t1_s1_auto_p2', 'q_threads.cpp', {'MODE': 11, 'TT': 1, 'SS': 1, 'OPSET': 1}, preempt=2, covers=5, optional_covers=(0, 1, 2), mt=True, shared_points=True, native=(), bounds=_QT % (1, 1, _OPS1, ' + one observer thread', 2, _SP_AUTO)),
-           Run('q_observer_t2_s1_p1', 'q_threads.cpp', {'MODE': 11, 'TT': 2, 'SS': 1, 'OPSET': 1}, preempt=1, covers=5, optional_covers=(1, 2, 4), mt=True, bounds=_QT % (2, 1, _OPS1, ' + one observer thread', 1, _SP_HOOKS))],
-    thorough=[Run('q_observer_t2_s1_auto_p2', 'q_threads.cpp', {'MODE': 11, 'TT': 2, 'SS': 1, 'OPSET': 1}, preempt=2, covers=5, optional_covers=(1, 2), mt=True, shared_points=True, native=(), budget_s=1700, bounds=_QT % (2, 1, _OPS1, ' + one observer thread', 2, _SP_AUTO)),
+           Run('q_observer_t2_s1_p1', 'q_threads.cpp', {'MODE': 11, 'TT': 2, 'SS': 1, 'OPSET': 1}, preempt=1, covers=5, optional_covers=(1, 2, 4), mt=True, bounds=_QT % (2, 1, _OPS1, ' + one observer thread', 1, _SP_HOOKS)),
+           Run('hq_observer_t1_s2_p2', 'q_threads.cpp', {'MODE': 11, 'TT': 1, 'SS': 2, 'OPSET': 5, 'HETER': None}, preempt=2, covers=5, optional_covers=(0, 1, 2, 3, 4), mt=True, native=(), bounds=_NOREP + _QTH % (1, 2, _OPS5, ' + one observer thread calling emptyQueue() or waitFor()', 2, _SP_HOOKS))],
+    thorough=[Run('hq_observer_t1_s2_auto_p2', 'q_threads.cpp', {'MODE': 11, 'TT': 1, 'SS': 2, 'OPSET': 5, 'HETER': None}, preempt=2, covers=5, optional_covers=(0, 1, 2, 3, 4), mt=True, shared_points=True, native=(), budget_s=1700, bounds=_QTH % (1, 2, _OPS5, ' + one observer thread', 2, _SP_AUTO)),
+              Run('hq_observer_t2_s1_p2', 'q_threads.cpp', {'MODE': 11, 'TT': 2, 'SS': 1, 'OPSET': 4, 'HETER': None}, preempt=2, covers=5, optional_covers=(0, 1, 2, 3, 4), mt=True, native=(), budget_s=1700, bounds=_NOREP + _QTH % (2, 1, _OPS4, ' + one observer thread', 2, _SP_HOOKS)),
+              Run('q_observer_t2_s1_auto_p2', 'q_threads.cpp', {'MODE': 11, 'TT': 2, 'SS': 1, 'OPSET': 1}, preempt=2, covers=5, optional_covers=(1, 2), mt=True, shared_points=True, native=(), budget_s=1700, bounds=_QT % (2, 1, _OPS1, ' + one observer thread', 2, _SP_AUTO)),
               Run('q_observer_ops1_s2_p2', 'q_threads.cpp', {'MODE': 11, 'TT': 2, 'SS': 2, 'OPSET': 1}, preempt=2, covers=5, optional_covers=(2,), mt=True, budget_s=1700, bounds=_QT % (2, 2, _OPS1, ' + one observer thread', 2, _SP_HOOKS)),
               Run('q_observer_all_s1_p3', 'q_threads.cpp', {'MODE': 11, 'TT': 2, 'SS': 1, 'OPSET': 0}, preempt=3, covers=5, mt=True, budget_s=1700, bounds=_QT % (2, 1, _OPS0, ' + one observer thread', 3, _SP_HOOKS)),
               Run('q_observer_ops1_s2_auto_p2', 'q_threads.cpp', {'MODE': 11, 'TT': 2, 'SS': 2, 'OPSET': 1}, preempt=2, covers=5, optional_covers=(2,), mt=True, shared_points=True, native=(), budget_s=1700, bounds=_QT % (2, 2, _OPS1, ' + one observer thread', 2, _SP_AUTO))],
@@ -303,8 +307,10 @@ _WT = ('EventQueue, instrumented Threading policy (wait/wait_for are the standar
        '{plain enqueue, enqueue inside a DisableQueueNotify scope, inside two nested scopes, empty scope then enqueue, two enqueues inside one scope}%s; timeouts of waitFor fire at any scheduling point; at most P=%d preemptions')
 PROPS['C07'] = Prop(
     quick=[Run('q_wait_1w_p3', 'q_threads.cpp', {'MODE': 7, 'TT': 2}, preempt=3, covers=8, optional_covers=(0, 1, 2, 3, 4), mt=True, bounds=_WT % ('1 waiter (wait or waitFor, then process)', '', 3)),
-           Run('q_wait_1w_scope_p2', 'q_threads.cpp', {'MODE': 7, 'TT': 2, 'SCOPE_THREAD': None}, preempt=2, covers=8, optional_covers=(0, 1, 2, 3, 4), mt=True, bounds=_WT % ('1 waiter', ' + optionally a third thread that opens and closes a DisableQueueNotify scope', 2))],
-    thorough=[Run('q_wait_2w_p3', 'q_threads.cpp', {'MODE': 7, 'TT': 3}, preempt=3, covers=8, optional_covers=(0, 1, 2, 3, 4), mt=True, budget_s=1700, bounds=_WT % ('1 or 2 waiters', '', 3)),
+           Run('q_wait_1w_scope_p2', 'q_threads.cpp', {'MODE': 7, 'TT': 2, 'SCOPE_THREAD': None}, preempt=2, covers=8, optional_covers=(0, 1, 2, 3, 4), mt=True, bounds=_WT % ('1 waiter', ' + optionally a third thread that opens and closes a DisableQueueNotify scope', 2)),
+           Run('hq_wait_1w_p2', 'q_threads.cpp', {'MODE': 7, 'TT': 2, 'HETER': None}, preempt=2, covers=8, optional_covers=(0, 1, 2, 3, 4, 5, 6, 7), mt=True, native=(), bounds=_NOREP + 'HeterEventQueue: ' + _WT % ('1 waiter (wait or waitFor, then process)', '', 2))],
+    thorough=[Run('hq_wait_1w_p3', 'q_threads.cpp', {'MODE': 7, 'TT': 2, 'HETER': None}, preempt=3, covers=8, optional_covers=(0, 1, 2, 3, 4, 5, 6, 7), mt=True, native=(), budget_s=1700, bounds=_NOREP + 'HeterEventQueue: ' + _WT % ('1 waiter', '', 3)),
+              Run('q_wait_2w_p3', 'q_threads.cpp', {'MODE': 7, 'TT': 3}, preempt=3, covers=8, optional_covers=(0, 1, 2, 3, 4), mt=True, budget_s=1700, bounds=_WT % ('1 or 2 waiters', '', 3)),
               Run('q_wait_1w_scope_p3', 'q_threads.cpp', {'MODE': 7, 'TT': 2, 'SCOPE_THREAD': None}, preempt=3, covers=8, optional_covers=(0, 1, 2, 3, 4), mt=True, budget_s=1700, bounds=_WT % ('1 waiter', ' + optional scope-only thread', 3)),
               Run('q_wait_1w_auto_p2', 'q_threads.cpp', {'MODE': 7, 'TT': 2}, preempt=2, covers=8, optional_covers=(0, 1, 2, 3, 4), mt=True, shared_points=True, native=(), budget_s=1700, bounds=_WT % ('1 waiter', '; automatic scheduling points on shared plain accesses', 2))],
     outside='spurious wake-ups (deliberately excluded); real time (timeouts are a nondeterministic stub); more than 2 waiters; std::condition_variable itself (the policy type stands in for it)',
